@@ -20,3 +20,13 @@ pub struct Unkeyed {
     pub seq: u32,
     pub blob: Vec<u8>,
 }
+
+/// type with the member kinds the content-filter language supports (int32, string)
+#[derive(Clone, Debug, PartialEq, DdsType)]
+pub struct Filterable {
+    #[dust_dds(key)]
+    pub id: u8,
+    pub level: i32,
+    pub color: String,
+    pub seq: u32,
+}
